@@ -237,7 +237,7 @@ def main(tier, seed_):
         for path in runner.replay_files(ID):
             for f in replay_case(json.load(open(path))["case"], stats):
                 stats.fail(f)
-    n = 800 if tier == "quick" else 30000
+    n = 800 if tier == "quick" else 15000
     per = max(1, n // runner.NPROC)
     res = runner.run_shards(_dispatch, [(shard_random, (per, runner.shard_seed(seed_, i, "c17"))) for i in range(runner.NPROC)])
     stats.merge(runner.merge_stats(res))
